@@ -162,6 +162,17 @@ def _diff(exp, got):
     return "missing=%r unexpected=%r" % (sorted(exp - got, key=repr)[:6], sorted(got - exp, key=repr)[:6])
 
 
+def safe_observe(sim, tree, fl, op):
+    """Reading the tree must never raise."""
+    try:
+        return T.observe(tree, fl)
+    except Exception as e:  # noqa: BLE001 - any exception while reading is a failure of the tree
+        import traceback
+
+        tb = "".join(traceback.format_exception(type(e), e, e.__traceback__)[-5:])
+        sim.fail("observe_raised", ["C09", "observe_raised", fl, type(e).__name__], "after %s: reading the tree raised %r\n%s" % (json.dumps(op), e, tb))
+
+
 def check_state(sim, tree, model, op, obs=None):
     """Compare the real tree with the model; returns the observation."""
     fl = model.flavour
@@ -174,7 +185,7 @@ def check_state(sim, tree, model, op, obs=None):
     if disk != model.disk:
         fail("disk", _diff(model.disk.items(), disk.items()))
     if obs is None:
-        obs = T.observe(tree, fl)
+        obs = safe_observe(sim, tree, fl, op)
     snap = obs["tree"]
     if set(snap) != model.versioned_paths():
         fail("versioned_paths", _diff(model.versioned_paths(), set(snap)))
@@ -212,7 +223,10 @@ def check_state(sim, tree, model, op, obs=None):
 
 def check_basis(sim, tree, model, op):
     fl = model.flavour
-    snap = T.tree_snapshot(tree.basis_tree())
+    try:
+        snap = T.tree_snapshot(tree.basis_tree())
+    except Exception as e:  # noqa: BLE001
+        sim.fail("observe_raised", ["C09", "observe_raised", fl, "basis", type(e).__name__], "after %s: reading the basis tree raised %r" % (json.dumps(op), e))
     if fl == "bzr":
         got = {p: (fid, k, d, x) for p, (k, d, x, fid) in snap.items()}
         want = model.basis
@@ -251,7 +265,7 @@ def execute(sim, plan, extra=None):
         if cls == "skip" or (bad and cls != "error") or (not bad and cls != "ok"):
             sim.event("skip", i, op["o"])
             continue
-        before = T.observe(tree, fl) if op["o"] == "reopen" else None
+        before = safe_observe(sim, tree, fl, op) if op["o"] == "reopen" else None
         raised = None
         try:
             tree = T.apply_op(tree, model, op)
